@@ -28,8 +28,8 @@ from harness import designpower_util as U
 from harness.gnpy_util import TD
 
 BOUNDS = {
-    'quick': [dict(max_lib=2, wide=False, stride=22)],
-    'thorough': [dict(max_lib=3, wide=True, stride=83), dict(max_lib=4, wide=False, stride=797)],
+    'quick': [dict(max_lib=2, wide=False, stride=48)],
+    'thorough': [dict(max_lib=3, wide=True, stride=149), dict(max_lib=4, wide=False, stride=1499)],
 }
 CLAUSES = ['ChosenPermitted', 'CoversBand', 'RamanOnlyIfAllowed', 'CapableIfPossible', 'QuietestCapable',
            'NeverRefusesWhenCapable', 'RestrictIsPermitted', 'CanAlwaysConclude', 'SketchRefinesProperty']
@@ -83,11 +83,13 @@ def library_json(lib, variable_gain):
 
 def concretise(js, variable_gain):
     lib, c = js['lib'], js['c']
+    own_grid = c['variant'] == 3          # design band of the degree declared on a 37.5 GHz grid (13 channels, SI grid: 10)
     eq = U.synthetic_equipment(library_json(lib, variable_gain),
                                span=dict(power_mode=True, delta_power_range_db=[0, 0, 0], padding=10, EOL=0,
                                          con_in=0.25, con_out=0.25, target_extended_gain=db(c['ext']),
                                          max_fiber_lineic_loss_for_raman=db(c['ramanLimit']), max_length=150,
-                                         length_units='km'), si=SI)
+                                         length_units='km'),
+                               si=dict(SI, use_si_channel_count_for_design=False) if own_grid else SI)
     g, pos = db(c['g']), c['pos']
     fused_before = c['variant'] == 1        # a 0.5 dB Fused element directly in front of the judged amplifier
     uvoa = 1.0 if c['variant'] == 2 else 0.0  # operator output VOA on the judged amplifier: offset +1 dB, so the loss in
@@ -127,6 +129,9 @@ def concretise(js, variable_gain):
         for r in (ra, rb):
             r['params']['restrictions'] = {'booster_variety_list': rdm if c['rdmSide'] in (0, 1) else [],
                                            'preamp_variety_list': rdm if c['rdmSide'] in (0, 2) else []}
+    if own_grid:
+        first = 'fused 0.1' if head else 'amp 0'
+        ra['params']['per_degree_design_bands'] = {first: [{'f_min': 193.0e12, 'f_max': 193.5e12, 'spacing': 37.5e9}]}
     return eq, U.line_topology(spans, roadm_a=ra, roadm_b=rb, amps=amps, reverse=False, head=head)
 
 
@@ -170,7 +175,8 @@ def describe(js):
     c = js['c']
     return dict(g=db(c['g']), p=db(c['p']), position=POS_NAMES[c['pos']], fibre=['0.2 dB/km', '0.3 dB/km', '0.30..0.24 dB/km'][c['fibre']],
                 useOwn=c['useOwn'], useRdm=c['useRdm'], roadm_lists=['booster+preamp', 'booster only', 'preamp only'][c['rdmSide']],
-                surroundings=['plain', 'Fused element directly before', 'operator out_voa 1 dB'][c['variant']],
+                surroundings=['plain', 'Fused element directly before', 'operator out_voa 1 dB',
+                              'design band on a 37.5 GHz grid (13 channels)'][c['variant']],
                 library=[{k: (db(a[k]) if k in ('gmin', 'flat', 'pmax', 'nf0', 'nf') else a[k])
                           for k in ('name', 'id', 'gmin', 'flat', 'pmax', 'nf0', 'nf', 'raman', 'fmin', 'own', 'rdm', 'alw')}
                          for a in sorted(js['lib'], key=lambda m: m['id'])],
@@ -397,7 +403,7 @@ def run(chk):
                      several_capable=0, none_capable=0, refusal_admitted=0, below_min_gain_allowance=0,
                      band_edge_model_is_the_choice=0, quieter_raman_lacks_power=0, mixed_loss_fibre_blocks_quieter_raman=0,
                      between_roadms_preamp_list_only=0, fused_before_blocks_quieter_raman=0,
-                     fused_after_roadm_lifts_booster_list=0, operator_voa_needs_more_power=0, nf_within_a_tenth_of_a_db=0)
+                     fused_after_roadm_lifts_booster_list=0, operator_voa_needs_more_power=0, nf_within_a_tenth_of_a_db=0, own_grid_needs_more_power=0)
     mism = []
     for b in BOUNDS[chk.tier]:
         r = tlc.run('MC_AmpSelection', cfg_text=mc_cfg(b), timeout=2400, tag='c10-mc')
@@ -451,6 +457,8 @@ def run(chk):
             exercised['nf_within_a_tenth_of_a_db'] += len(adm_nf) > 1 and 0 < adm_nf[1] - adm_nf[0] < 100000
             exercised['operator_voa_needs_more_power'] += c['variant'] == 2 and bool(js['cap']) and any(
                 a['pmax'] < c['p'] <= a['pmax'] + 1000000 and a['nf'] < best for a in js['lib'])
+            exercised['own_grid_needs_more_power'] += c['variant'] == 3 and bool(js['cap']) and any(
+                a['pmax'] < c['p'] and a['pmax'] > c['p'] - 1139434 and a['nf'] < best for a in js['lib'])
             exercised['fused_before_blocks_quieter_raman'] += c['variant'] == 1 and bool(js['cap']) and c['pos'] in (INLINE, PREAMP) \
                 and any(a['raman'] and a['nf'] < best and a['pmax'] > c['p'] for a in js['lib'])
             exercised['fused_after_roadm_lifts_booster_list'] += c['variant'] == 1 and c['pos'] in (BOOSTER, BETWEEN) and \
